@@ -407,8 +407,7 @@ def rule_safe_inv(ctx, R):
             n += 1
             key = core.callee_base(c.key)
             owner = b
-            while owner.is_closure:
-                owner = lib.bodies.get(owner.j["closure_parent"], owner)
+            owner = lib.owner_of(owner)
             kind = None
             if key == GET_UNCHECKED:
                 kind = "table-index (SAFE-IDX-S/O)"
